@@ -117,7 +117,24 @@ func c11Run(ops []string, seed int) (lines []string, viols []Violation, info map
 		<-done
 		return bytes.Equal(got, msg)
 	}
+	if len(ops) > 0 && ops[0] == "lost-act3" {
+		// the relay loses the client's third handshake message of the very first connection
+		st.CutClientWritesAfter = 50
+		ops = ops[1:]
+	}
 	if !connect() {
+		if st.CliData.HandshakePattern().Name == mailbox.KK && st.SrvData.HandshakePattern().Name != mailbox.KK {
+			sS, _ := st.SrvData.SID()
+			sC, _ := st.CliData.SID()
+			add("sess.accept-ret")
+			add("sess.dial-ret")
+			add("sess.handshake-half")
+			add("sess.closed c")
+			add("sess.closed s")
+			add("sess.split " + b01(sS != sC))
+			viol("C11/half-paired-after-lost-act3", fmt.Sprintf("the first handshake completed on the client only (its last message was lost): the client moved to the key-derived rendezvous and the KK pattern, the server stays at the passphrase rendezvous; after both closed that connection no fresh one is ever handed out (server %v, client %v)", srv.Err, cli.Err))
+			return
+		}
 		viol("C11/no-connection", fmt.Sprintf("no working connection: server %v, client %v", srv.Err, cli.Err))
 		return
 	}
@@ -338,6 +355,7 @@ func TestC11(t *testing.T) {
 	for _, a := range alphabet {
 		seqs = append(seqs, []string{a})
 	}
+	seqs = append(seqs, []string{"lost-act3", "transfer"})
 	rng := newRand(11)
 	for _, a := range alphabet[1:] {
 		for _, b := range alphabet[1:] {
